@@ -57,6 +57,14 @@ func (v *violCtx) spendTx(x cand, valid bool, outValue uint64) *wire.Tx {
 	return tx
 }
 
+// bip68Version: the rule applies to every version >= 2 compared as an UNSIGNED number (0x80000000 and above too).
+func (v *violCtx) bip68Version(tx *wire.Tx, arg int) {
+	tx.Version = []uint32{2, 2, 2, 3, 0x7fffffff, 0x80000000, 0x80000002, 0xffffffff}[mod(arg/3, 8)]
+	if tx.Version >= 0x80000000 {
+		v.sub = "version>=2^31"
+	}
+}
+
 // pre runs after the ordinary transactions were built, before the coinbase.
 func (v *violCtx) pre() {
 	c, s, arg := v.c, v.c.s, v.op.Arg
@@ -242,6 +250,8 @@ func (v *violCtx) pre() {
 				}
 				if arg%7 == 3 {
 					tx.Version = 1 // BIP68 does not apply to version 1
+				} else {
+					v.bip68Version(tx, arg)
 				}
 				v.effective = true
 			}
@@ -262,6 +272,7 @@ func (v *violCtx) pre() {
 				}
 				if k <= 0xffff {
 					tx.In[0].Sequence = consensus.SeqTypeFlag | k
+					v.bip68Version(tx, arg)
 					v.effective = true
 				}
 			}
